@@ -124,6 +124,23 @@ def _config_json(scn):
 
 
 def execute(scn: dict) -> dict:
+    # the inherited default environment is read from the host's environment at launch time: make it scenario-specific
+    import hashlib
+    env_mark = "term-" + hashlib.sha256(json.dumps(scn, sort_keys=True).encode()).hexdigest()[:6]
+    saved_env = {k_: os.environ.get(k_) for k_ in ("TERM", "LOGNAME")}
+    os.environ["TERM"] = env_mark
+    os.environ["LOGNAME"] = "user-" + env_mark
+    try:
+        return _execute(scn)
+    finally:
+        for k_, v_ in saved_env.items():
+            if v_ is None:
+                os.environ.pop(k_, None)
+            else:
+                os.environ[k_] = v_
+
+
+def _execute(scn: dict) -> dict:
     cfgmod = importlib.import_module("chuk_mcp.config")
     mainmod = importlib.import_module("chuk_mcp.__main__")
     smod = importlib.import_module("chuk_mcp.mcp_client.host.server_manager")
